@@ -46,7 +46,7 @@ def make_ufo(rng):
     return ufo, env
 
 
-def gen_aff(rng):
+def gen_aff(rng, tiny=True):
     from picosvg.svg_transform import Affine2D
 
     k = rng.random()
@@ -62,7 +62,7 @@ def gen_aff(rng):
         # 3/5 is not dyadic: use exact 0/1/-1 rotations and dyadic approximations otherwise
         c_, s_ = round(c_ * 64) / 64, round(s_ * 64) / 64
         return Affine2D(c_, s_, -s_ * s, c_ * s, d(-300, 300), d(-300, 300))
-    if k < 0.5:
+    if k < 0.5 and tiny:
         return Affine2D(1, 0, 0, 1, 2**-40, 0)  # almost identity: the implementation skips it
     return Affine2D(d(-3, 3), d(-3, 3), d(-3, 3), d(-3, 3), d(-600, 600), d(-600, 600))
 
@@ -75,7 +75,7 @@ def gen_leaf(rng, names):
     return P.PaintGlyph(glyph=rng.choice(names), paint=fill)
 
 
-def gen_root(rng, names, nested=False, depth=0):
+def gen_root(rng, names, nested=False, depth=0, tiny=True):
     from nanoemoji import paint as P
     from nanoemoji.colors import Color
 
@@ -83,20 +83,20 @@ def gen_root(rng, names, nested=False, depth=0):
     if depth >= 2 or k < 0.35:
         leaf = gen_leaf(rng, names)
         if rng.random() < 0.6:
-            leaf = P.transformed(gen_aff(rng), leaf)
+            leaf = P.transformed(gen_aff(rng, tiny), leaf)
             if nested and rng.random() < 0.7:
-                leaf = P.transformed(gen_aff(rng), leaf)
+                leaf = P.transformed(gen_aff(rng, tiny), leaf)
         return leaf
     if k < 0.7:
-        return P.PaintColrLayers(layers=tuple(gen_root(rng, names, nested, depth + 1) for _ in range(rng.randint(1, 3))))
+        return P.PaintColrLayers(layers=tuple(gen_root(rng, names, nested, depth + 1, tiny) for _ in range(rng.randint(1, 3))))
     if k < 0.85:
         return P.PaintComposite(
             mode=P.CompositeMode.SRC_IN,
-            source=P.PaintColrLayers(layers=tuple(gen_root(rng, names, nested, depth + 1) for _ in range(2))),
+            source=P.PaintColrLayers(layers=tuple(gen_root(rng, names, nested, depth + 1, tiny) for _ in range(2))),
             backdrop=P.PaintSolid(Color(0, 0, 0, 0.5)),
         )
-    inner = gen_root(rng, names, nested, depth + 1)
-    return P.transformed(gen_aff(rng), inner) if nested else inner
+    inner = gen_root(rng, names, nested, depth + 1, tiny)
+    return P.transformed(gen_aff(rng, tiny), inner) if nested else inner
 
 
 def has_nested_transform(p, above=0):
